@@ -230,6 +230,7 @@ def oracle(case, R):
     hstep = case.get("h")
     tsu = ode.SolveUnc(M_in, B_in, K_in, **kw) if hstep is None else ode.SolveUnc(M_in, B_in, K_in, hstep, **kw)
     R.label("h=None" if hstep is None else "h_given")
+    R.label("freq:two_sided" if np.any(freq < 0) else "freq:nonneg")
     if hstep is not None and case.get("tsolve_first"):
         tsu.tsolve(np.real(F_in[:, :1]) @ np.ones((1, 4)))
         R.label("tsolve_first")
@@ -252,6 +253,9 @@ def oracle(case, R):
             R.label("out_of_domain:repeated_roots")
             return
         kap_su = kapPhi * np.linalg.cond(V)
+        nre = int(np.sum(np.abs(lam.imag) <= 1e-9 * np.maximum(np.abs(lam), 1e-300)))
+        R.label("eig:all_complex" if nre == 0 else ("eig:all_real" if nre == len(lam) else "eig:mixed"),
+                "eig:mixed+h" if (0 < nre < len(lam) and hstep is not None) else "eig:other")
     R.check(np.array_equal(np.asarray(su.f), freq), "SolveUnc_freq_vector")
     compare(R, "SolveUnc", su, ref_phys, groups, cnd * (daf if form == "physical" else 1.0), kap_su, tag, nat=nat)
     # --- FreqDirect (no 0 Hz with rigid-body modes: documented divide by zero)
@@ -429,6 +433,9 @@ def freq_cases(draw, form, psd=False):
         freq.append(float(f))
     if any(md["reg"] == "rbd" for md in modes):
         freq = [f if f != 0.0 else 0.37 for f in freq]
+    # two-sided spectra (FFT bin order, sweeps through 0 Hz): the equation is the same for W < 0
+    if not psd and draw(st.sampled_from([False, False, False, True])):
+        freq = [-f if draw(st.booleans()) else f for f in freq]
     if psd:
         freq = sorted(set(freq))
         if len(freq) < 2:
